@@ -78,6 +78,7 @@ class Kernels:
     def __init__(self, mf, overflow_checks, repo, seed=0):
         self.mf = mf
         self.oc = overflow_checks
+        self.repo = repo
         targets.register_primitive_enum(repo)
         self.ex = sym.Executor(mf, overflow_checks, models.base_models(), targets.generic_resolver(mf, CRATE_PREFIXES), seed=seed)
         self.instr_fn = {}
@@ -298,7 +299,9 @@ def oracle(op, kinds, inputs):
 
 # ---------------------------------------------------------------- concrete evaluation of a summary
 def const_of(kind, bits_value):
-    ty = KTY[kind]
+    if kind == "Nil":
+        return z3.BitVecVal(0, 8)
+    ty = KTY[base_kind(kind)]
     if ty == "f64":
         return z3.fpBVToFP(z3.BitVecVal(bits_value, 64), F64)
     if ty == "bool":
@@ -372,3 +375,59 @@ BOUNDARY = {
               0xFFF0000000000000, 0x7FF8000000000000, 0x0000000000000001, 0x7FEFFFFFFFFFFFFF, 0x41E0000000000000, 0xC1E0000000000000,
               0x4340000000000000, 0x4008000000000000, 0xC020000000000000, 0x3FB999999999999A, 0x47E0000000000000, 0x43E0000000000000],
 }
+
+
+# ---------------------------------------------------------------- optional operands (C12)
+OPT_KINDS = ["Nil", "SomeInt", "SomeBigInt", "SomeFloat", "SomeByte", "SomeBool"]
+BOUNDARY["Nil"] = [0]
+for _k in ("Int", "BigInt", "Float", "Byte", "Bool"):
+    BOUNDARY["Some" + _k] = BOUNDARY[_k]
+
+
+def base_kind(kind):
+    return kind[4:] if kind.startswith("Some") else kind
+
+
+def is_present(kind):
+    return kind != "Nil"
+
+
+def opt_payload(kind, name):
+    if kind == "Nil":
+        return Sc("u8", z3.BitVecVal(0, 8))      # no payload; a dummy so that every operand has an input slot
+    return sym_payload(base_kind(kind), name)
+
+
+def opt_prim(cells, key, kind, payload):
+    """Primitive value for an operand kind incl. Nil / Some<K>; Some boxes its payload in a heap cell"""
+    if kind == "Nil":
+        return Adt("Primitive", "Optional", [Adt("Option", "None", [])])
+    if kind.startswith("Some"):
+        cells[key] = prim(base_kind(kind), payload)
+        box = Adt("Box", None, [Adt("Unique", None, [Ref(key)]), Adt("Global", None, [])])
+        return Adt("Primitive", "Optional", [Adt("Option", "Some", [box])])
+    return prim(kind, payload)
+
+
+def decode_prim(cells, p):
+    """-> (kind name incl. Nil/Some<K>, payload Sc or None) of a Primitive value found after execution"""
+    if not (isinstance(p, Adt) and p.ty == "Primitive"):
+        raise Inconclusive("expected a Primitive, got %r" % (p,))
+    if p.variant != "Optional":
+        return p.variant, p.fields[0]
+    o = p.fields[0]
+    if o.variant == "None":
+        return "Nil", None
+    box = o.fields[0]
+    inner = box
+    # Box(Unique(NonNull=Ref))
+    n = 0
+    while isinstance(inner, Adt) and inner.ty in ("Box", "Unique", "NonNull") and n < 4:
+        inner = inner.fields[0]
+        n += 1
+    if isinstance(inner, Ref):
+        inner = cells[inner.cell]
+        for i in ():
+            pass
+    k, v = decode_prim(cells, inner)
+    return "Some" + k, v
